@@ -89,3 +89,37 @@ int sim_omp_selftest(int nthreads, int n, char *msg, size_t msglen)
     free(v);
     return bad;
 }
+
+/* Store-buffering litmus test (Dekker handshake with relaxed atomics): two tasks each publish a flag and then read
+   the other's.  Under sequential consistency at least one of them sees the other's flag; with store buffers (x86-TSO)
+   both may read 0.  Returns 1 if both read 0.  Used to validate simomp's store-buffer model, not to judge kalign. */
+int sim_omp_litmus_sb(int nthreads)
+{
+    int x = 0, y = 0, r1 = -1, r2 = -1;
+#ifdef _OPENMP
+#pragma omp parallel num_threads(nthreads)
+    {
+#pragma omp single
+        {
+#pragma omp task shared(x, y, r1)
+            {
+#pragma omp atomic write
+                x = 1;
+#pragma omp atomic read
+                r1 = y;
+            }
+#pragma omp task shared(x, y, r2)
+            {
+#pragma omp atomic write
+                y = 1;
+#pragma omp atomic read
+                r2 = x;
+            }
+#pragma omp taskwait
+        }
+    }
+#else
+    (void)nthreads; x = y = 1; r1 = r2 = 1;
+#endif
+    return r1 == 0 && r2 == 0;
+}
